@@ -136,6 +136,9 @@ def normalise_name(raw, repo, first_param=None):
         # #[derive(Trait)]: the span covers the trait name; the self type is the first parameter's type
         ty = (first_param or "Self").strip()
         ty = re.sub(r"^&(mut )?", "", ty)
+        if h.startswith("#["):
+            # attribute macro generating an inherent impl (e.g. #[dora_object]): `Type::method`
+            return re.sub(r"<.*>$", "", split_path(ty)[-1]) + rest
         return "<%s as %s>%s" % (ty, h, rest)
     h = re.sub(r"^unsafe\s+", "", h)
     h = re.sub(r"^impl\s*", "", h)
